@@ -384,6 +384,113 @@ pub fn hf_json(rng: &mut Rng, variant: usize) -> Vec<u8> {
     .into_bytes()
 }
 
+/// A Tokenizers JSON that walks through every normalizer, pre-tokenizer, post-processor and decoder variant the
+/// converter knows (nested sequences included), around a small valid vocabulary of one of the three model kinds.
+pub fn hf_zoo(rng: &mut Rng, variant: usize) -> Vec<u8> {
+    let normalizers = [
+        r#"{"type":"BertNormalizer","clean_text":true,"handle_chinese_chars":true,"strip_accents":null,"lowercase":true}"#,
+        r#"{"type":"BertNormalizer","clean_text":false,"handle_chinese_chars":false,"strip_accents":true,"lowercase":false}"#,
+        r#"{"type":"StripNormalizer","strip_left":true,"strip_right":true}"#,
+        r#"{"type":"StripNormalizer","strip_left":false,"strip_right":true}"#,
+        r#"{"type":"StripAccents"}"#,
+        r#"{"type":"NFC"}"#,
+        r#"{"type":"NFD"}"#,
+        r#"{"type":"NFKC"}"#,
+        r#"{"type":"NFKD"}"#,
+        r#"{"type":"Lowercase"}"#,
+        r#"{"type":"Nmt"}"#,
+        r#"{"type":"Precompiled","precompiled_charsmap":"CAAAAAAAAAAAAAAAWAA="}"#,
+        r#"{"type":"Replace","pattern":{"String":" "},"content":"▁"}"#,
+        r#"{"type":"Replace","pattern":{"String":""},"content":"x"}"#,
+        r#"{"type":"Replace","pattern":{"Regex":"\s+"},"content":" "}"#,
+        r#"{"type":"Replace","pattern":{"String":"a"},"content":"$0$1"}"#,
+        r#"{"type":"Prepend","prepend":"▁"}"#,
+        r#"{"type":"Prepend","prepend":""}"#,
+    ];
+    let pre_tokenizers = [
+        r#"{"type":"BertPreTokenizer"}"#,
+        r#"{"type":"ByteLevel","add_prefix_space":true,"trim_offsets":true,"use_regex":true}"#,
+        r#"{"type":"ByteLevel","add_prefix_space":false,"trim_offsets":false,"use_regex":false}"#,
+        r#"{"type":"Delimiter","delimiter":"-"}"#,
+        r#"{"type":"Delimiter","delimiter":"é"}"#,
+        r#"{"type":"Metaspace","replacement":"▁","prepend_scheme":"always","split":true}"#,
+        r#"{"type":"Metaspace","replacement":"▁","prepend_scheme":"first","split":false}"#,
+        r#"{"type":"Metaspace","replacement":"_","prepend_scheme":"never","add_prefix_space":false,"split":true}"#,
+        r#"{"type":"Metaspace","replacement":"▁","prepend_scheme":"always","add_prefix_space":false}"#,
+        r#"{"type":"Whitespace"}"#,
+        r#"{"type":"WhitespaceSplit"}"#,
+        r#"{"type":"Split","pattern":{"String":" "},"behavior":"Removed","invert":false}"#,
+        r#"{"type":"Split","pattern":{"String":"é"},"behavior":"Removed","invert":true}"#,
+        r#"{"type":"Split","pattern":{"Regex":"\d"},"behavior":"MergedWithPrevious","invert":false}"#,
+        r#"{"type":"Split","pattern":{"String":"ab"},"behavior":"Contiguous","invert":false}"#,
+        r#"{"type":"Split","pattern":{"String":""},"behavior":"Isolated","invert":false}"#,
+        r#"{"type":"Punctuation","behavior":"Removed"}"#,
+        r#"{"type":"Punctuation","behavior":"MergedWithNext"}"#,
+        r#"{"type":"Punctuation"}"#,
+        r#"{"type":"Digits","individual_digits":true}"#,
+        r#"{"type":"Digits","individual_digits":false}"#,
+        r#"{"type":"UnicodeScripts"}"#,
+    ];
+    let decoders = [
+        r#"{"type":"BPEDecoder","suffix":"</w>"}"#,
+        r#"{"type":"ByteLevel"}"#,
+        r###"{"type":"WordPiece","prefix":"##","cleanup":true}"###,
+        r###"{"type":"WordPiece","prefix":"##","cleanup":false}"###,
+        r#"{"type":"Metaspace","replacement":"▁","prepend_scheme":"always"}"#,
+        r#"{"type":"Metaspace","replacement":"▁","prepend_scheme":"never","add_prefix_space":false}"#,
+        r#"{"type":"CTC","pad_token":"<pad>","word_delimiter_token":"|","cleanup":true}"#,
+        r#"{"type":"Replace","pattern":{"String":"▁"},"content":" "}"#,
+        r#"{"type":"Replace","pattern":{"Regex":"(("},"content":" "}"#,
+        r#"{"type":"Fuse"}"#,
+        r#"{"type":"Strip","content":" ","start":1,"stop":0}"#,
+        r#"{"type":"Strip","content":"▁","start":4294967296,"stop":0}"#,
+        r#"{"type":"ByteFallback"}"#,
+    ];
+    let post_processors = [
+        r#"{"type":"RobertaProcessing","sep":["</s>",2],"cls":["<s>",1],"trim_offsets":true,"add_prefix_space":true}"#,
+        r#"{"type":"BertProcessing","sep":["[SEP]",102],"cls":["[CLS]",101]}"#,
+        r#"{"type":"ByteLevel","add_prefix_space":true,"trim_offsets":false,"use_regex":true}"#,
+        r#"{"type":"TemplateProcessing","single":[{"SpecialToken":{"id":"<s>","type_id":0}},{"Sequence":{"id":"A","type_id":0}},{"SpecialToken":{"id":"</s>","type_id":0}}],"pair":[{"Sequence":{"id":"A","type_id":0}},{"SpecialToken":{"id":"</s>","type_id":0}},{"Sequence":{"id":"B","type_id":1}}],"special_tokens":{"<s>":{"id":"<s>","ids":[1],"tokens":["<s>"]},"</s>":{"id":"</s>","ids":[2],"tokens":["</s>"]}}}"#,
+        r#"{"type":"TemplateProcessing","single":[{"Sequence":{"id":"A","type_id":0}}],"pair":[],"special_tokens":{"<x>":{"id":"<x>","ids":[],"tokens":[]},"<y>":{"id":"<y>","ids":[7,8],"tokens":["<y>"]}}}"#,
+    ];
+    let pick_seq = |rng: &mut Rng, items: &[&str], key: &str, seq_type: &str| -> String {
+        match rng.below(5) {
+            0 => "null".to_string(),
+            1 | 2 => rng.pick(items).to_string(),
+            3 => format!(r#"{{"type":"{}","{}":[{},{}]}}"#, seq_type, key, rng.pick(items), rng.pick(items)),
+            _ => format!(
+                r#"{{"type":"{}","{}":[{},{{"type":"{}","{}":[{},{}]}},{}]}}"#,
+                seq_type, key, rng.pick(items), seq_type, key, rng.pick(items), rng.pick(items), rng.pick(items)
+            ),
+        }
+    };
+    let norm = pick_seq(rng, &normalizers, "normalizers", "Sequence");
+    let pre = pick_seq(rng, &pre_tokenizers, "pretokenizers", "Sequence");
+    let dec = pick_seq(rng, &decoders, "decoders", "Sequence");
+    let post = pick_seq(rng, &post_processors, "processors", "Sequence");
+    let model = match variant % 3 {
+        0 => format!(
+            r#"{{"type":"BPE","vocab":{{"<unk>":0,"<s>":1,"</s>":2,"a":3,"b":4,"ab":5,"▁":6,"▁a":7,"Ġ":8,"é":9,"1":10,"|":11}},"merges":{},"unk_token":"<unk>","fuse_unk":{},"byte_fallback":false,"end_of_word_suffix":{}}}"#,
+            if variant % 2 == 0 { r#"["a b","▁ a"]"# } else { r#"[["a","b"],["▁","a"]]"# },
+            variant % 4 == 0,
+            if variant % 5 == 0 { r#""</w>""# } else { "null" }
+        ),
+        1 => r###"{"type":"WordPiece","vocab":{"[UNK]":0,"[CLS]":101,"[SEP]":102,"a":1,"b":2,"##b":3,"##a":4,"1":5},"unk_token":"[UNK]","continuing_subword_prefix":"##","max_input_chars_per_word":100}"###.to_string(),
+        _ => r#"{"type":"Unigram","unk_id":0,"vocab":[["<unk>",0.0],["<s>",0.0],["</s>",0.0],["▁",-1.0],["a",-1.5],["b",-2.0],["ab",-2.5],["▁a",-3.0],["1",-3.5],["é",-4.0]],"byte_fallback":false}"#.to_string(),
+    };
+    let added = match variant % 3 {
+        1 => r#"[{"id":0,"content":"[UNK]","single_word":false,"lstrip":false,"rstrip":false,"normalized":false,"special":true},{"id":101,"content":"[CLS]","single_word":false,"lstrip":false,"rstrip":false,"normalized":false,"special":true},{"id":102,"content":"[SEP]","single_word":false,"lstrip":false,"rstrip":false,"normalized":false,"special":true}]"#,
+        _ => r#"[{"id":0,"content":"<unk>","single_word":false,"lstrip":false,"rstrip":false,"normalized":false,"special":true},{"id":1,"content":"<s>","single_word":false,"lstrip":false,"rstrip":false,"normalized":false,"special":true},{"id":2,"content":"</s>","single_word":false,"lstrip":false,"rstrip":false,"normalized":true,"special":true}]"#,
+    };
+    let padding = if rng.chance(1, 4) { r#"{"strategy":{"Fixed":8},"direction":"Left","pad_to_multiple_of":4,"pad_id":0,"pad_type_id":0,"pad_token":"<unk>"}"# } else { "null" };
+    let truncation = if rng.chance(1, 4) { r#"{"direction":"Left","max_length":6,"strategy":"LongestFirst","stride":2}"# } else { "null" };
+    format!(
+        r#"{{"version":"1.0","truncation":{},"padding":{},"added_tokens":{},"normalizer":{},"pre_tokenizer":{},"post_processor":{},"decoder":{},"model":{}}}"#,
+        truncation, padding, added, norm, pre, post, dec, model
+    )
+    .into_bytes()
+}
+
 pub fn tekken_json(rng: &mut Rng, variant: usize) -> Vec<u8> {
     let odd = |rng: &mut Rng| rng.chance(1, 6);
     let nspecial = if odd(rng) { *rng.pick(&[0usize, 1, 13, 15, 4294967295]) } else { 14 };
@@ -442,6 +549,7 @@ pub fn gen(rng: &mut Rng, thorough: bool, out: &mut Sink) {
         cases.push(("tokenizers".into(), "generated".into(), hf_json(rng, v)));
         cases.push(("tekken".into(), "generated".into(), tekken_json(rng, v)));
         cases.push(("tiktoken".into(), "generated".into(), tiktoken_text(rng, v)));
+        cases.push(("tokenizers".into(), "generated-zoo".into(), hf_zoo(rng, v)));
         let f = ["auto", "sentencepiece", "tokenizers", "tekken", "tiktoken"][v % 5];
         let base = match v % 4 {
             0 => sp_model(rng, v),
@@ -591,6 +699,41 @@ pub fn gen(rng: &mut Rng, thorough: bool, out: &mut Sink) {
                 out.push(initb_line(&bytes[..cut]));
             }
         }
+    }
+    // ---- every constructor error, from well-formed native files: wrong score count, duplicate token bytes, duplicate
+    // special text, special text that is not UTF-8 — and their combinations (the constructor's order of checks)
+    for k in 0..(if thorough { 400 } else { 60 }) {
+        let mut def = crate::enc::gen_full_definition(rng, false, k % 2 == 0);
+        let faults = 1 + rng.below(15);
+        if faults & 1 != 0 {
+            if let Model::Unigram { scores, .. } = &mut def.model {
+                if rng.chance(1, 2) {
+                    scores.pop();
+                } else {
+                    scores.push(-1.0);
+                }
+            }
+        }
+        if faults & 2 != 0 {
+            let v = def.model.vocab_mut();
+            if let Some(t) = v.first().cloned() {
+                v.push(Token { id: t.id.wrapping_add(7_000), bytes: t.bytes });
+            }
+        }
+        if faults & 4 != 0 {
+            if let Some(sp) = def.specials.first().cloned() {
+                def.specials.push(SpecialToken { id: sp.id.wrapping_add(1), ..sp });
+            } else {
+                let sp = SpecialToken { id: 9_000_000, bytes: b"<dup>".to_vec(), kind: SpecialTokenKind::Control, ident: None, score: 0.0, extract: false };
+                def.specials.push(sp.clone());
+                def.specials.push(SpecialToken { id: 9_000_001, ..sp });
+            }
+        }
+        if faults & 8 != 0 {
+            def.specials.push(SpecialToken { id: 9_000_002, bytes: vec![b'<', 0xff, b'>'], kind: SpecialTokenKind::Priority, ident: None, score: 0.0, extract: k % 4 < 2 });
+        }
+        out.push(initb_line(&def.to_vec()));
+        out.count("constructor_error_definitions");
     }
     out.add("child_crashes", iso.crashes);
     if timing {
